@@ -288,6 +288,10 @@ func creditCannotFailLate(r *Run, rule string) {
 					ok = true
 				}
 			}
+			if !ok && P.deadNilBranch(a.G) {
+				r.OK(rule, fmt.Sprintf("%s/failure#%d/dead-branch", w.fn, i), P.InstrPos(a.Ret), "unreachable: tests a freshly constructed value for nil")
+				continue
+			}
 			r.Check(ok, rule, fmt.Sprintf("%s/failure#%d/vetted-cause", w.fn, i), P.InstrPos(a.Ret), "vetted cause", w.fn+" fails under {"+strings.Join(atomStrings(a.G), " ; ")+"}: not one of the vetted causes — SendCoins has already debited the sender when this is reached (rejected transfer leaves the debit behind)")
 		}
 	}
@@ -314,4 +318,47 @@ func init() {
 	})
 	extend("C02", func(r *Run) { creditCannotFailLate(r, "C02-R13") })
 	extend("C17", func(r *Run) { exitOnlyAfterACL(r, "C17-R9") })
+}
+
+// deadNilBranch: the guards require result #0 of a repo call to be nil although the call succeeded (its error result
+// is nil) and every success return of that callee yields the address of a fresh object: the branch cannot be taken.
+func (P *Prog) deadNilBranch(gs []Atom) bool {
+	for _, a := range gs {
+		if !a.Pos || a.T.Op != "call" || a.T.Name != "isnil" || len(a.T.Args) != 1 {
+			continue
+		}
+		x := a.T.Args[0]
+		if x.Op != "extract" || x.Name != "0" || len(x.Args) != 1 || x.Args[0].Op != "call" {
+			continue
+		}
+		callee := P.Fn(x.Args[0].Name)
+		if callee == nil {
+			continue
+		}
+		ei, _ := errIndex(callee.Signature)
+		if ei < 0 {
+			continue
+		}
+		// the same call's error result is known nil on this path
+		okErr, _ := HasAtom(gs, `^`+q("isnil("+x.Args[0].String()+"#"+itoa(ei)+")")+`$`)
+		if !okErr {
+			continue
+		}
+		fresh := true
+		n := 0
+		for _, ret := range Returns(callee) {
+			if c, _ := P.retClass(ret, ei); c != "nil" {
+				continue
+			}
+			n++
+			t := P.TermAt(ret.Results[0], ret).String()
+			if !(strings.HasPrefix(t, "&") || strings.HasPrefix(t, "addr:")) {
+				fresh = false
+			}
+		}
+		if fresh && n > 0 {
+			return true
+		}
+	}
+	return false
 }
